@@ -1,4 +1,5 @@
 import HexProofs.Numeric.Simple
+import HexProofs.Numeric.SeriesOnManagersC05
 import HexProofs.Numeric.SeriesInputsKC
 import HexProofs.Numeric.SeriesInputsSupertrend
 import HexProofs.Numeric.SeriesInputsThres
@@ -1161,7 +1162,8 @@ example : ∃ out : List (Candle ℚ),
     Numeric.kcI_demo_input Numeric.kcI_demo_absent demoForeign_in demoForeign_none
 end Hex.C05
 namespace Hex.C05
-open Hex.Numeric
+open Hex Hex.Numeric
+variable {K : Type} [Field K] [LinearOrder K] [IsStrictOrderedRing K] [LawfulPyF K]
 
 /-- **Supertrend over candle lists with foreign readings** (`Numeric.C05SupertrendStatement`): Supertrend reads
 NO `input` (model and library: `input_value` is ignored), so for EVERY candle list (its five names absent) and
@@ -1187,5 +1189,319 @@ theorem supertrend_input_irrelevant {F : Type} [PyF F] (p : Int) (nm input input
 theorem supertrend_series_bare {K : Type} [Field K] [LinearOrder K] [IsStrictOrderedRing K] [LawfulPyF K]
     (p : Nat) (mult : K) (cs : List (Candle K)) :
     Numeric.stSeries p mult (cs.map Candle.bare) = Numeric.stSeries p mult cs := Numeric.stI_series_bare p mult cs
+
+theorem hla_series_on_manager (M : MgrSpec K) (nm : String) (n : Nat) (hk : IsKey nm) :
+    HoldsOn M (mkTop .hla nm n) (HlaCandle (K := K) n nm) :=
+  Numeric.hla_series_on_manager M nm n hk
+
+theorem hla_series_on_tf (tf : Int) (htf : 0 < tf) (nm : String) (n : Nat) (hk : IsKey nm)
+    (init : List (Candle K)) (chunks : List (List (Candle K))) (hraw : RawTf (init ++ chunks.flatten)) :
+    ∃ snap, candlesOf (runIndicator (mkTop .hla nm n) { tf := some tf } init chunks) = .ok snap ∧
+      snap.length = (resample tf (init ++ chunks.flatten)).length ∧
+      ∀ j, j < (resample tf (init ++ chunks.flatten)).length →
+        (snap.getD j default).bare = ((resample tf (init ++ chunks.flatten)).getD j default).bare ∧
+        readingByCandle (snap.getD j default) nm
+          = .flt (PyF.round n ((fieldAt (·.h) (resample tf (init ++ chunks.flatten)) j
+              + fieldAt (·.l) (resample tf (init ++ chunks.flatten)) j) / 2)) :=
+  Numeric.hla_series_tf tf htf nm n hk init chunks hraw
+
+theorem hla_series_on_fillHA (tf : Int) (htf : 0 < tf) (nm : String) (n : Nat) (hk : IsKey nm)
+    (init : List (Candle K)) (chunks : List (List (Candle K)))
+    (hraw : RawTf (init ++ chunks.flatten) ∧ ∀ c ∈ init ++ chunks.flatten, c.tag = false) :
+    ∃ snap, candlesOf (runIndicator (mkTop .hla nm n) { tf := some tf, fill := true, ha := true } init chunks)
+        = .ok snap ∧
+      EveryCandle (HlaCandle n nm) (haSpec (fillSpec tf (init ++ chunks.flatten))) snap :=
+  Numeric.hla_series_fillHA tf htf nm n hk init chunks hraw
+
+theorem tr_series_on_manager (M : MgrSpec K) (nm : String) (n : Nat) (hk : IsKey nm) :
+    HoldsOn M (mkTop .tr nm n) (TrCandle (K := K) n nm) :=
+  Numeric.tr_series_on_manager M nm n hk
+
+/-- **TR on a collapsing timeframe**: the true range of the COLLAPSED candles (bucket high / low against the previous
+bucket's close) -/
+theorem tr_series_on_tf (tf : Int) (htf : 0 < tf) (nm : String) (n : Nat) (hk : IsKey nm)
+    (init : List (Candle K)) (chunks : List (List (Candle K))) (hraw : RawTf (init ++ chunks.flatten)) :
+    ∃ snap, candlesOf (runIndicator (mkTop .tr nm n) { tf := some tf } init chunks) = .ok snap ∧
+      snap.length = (resample tf (init ++ chunks.flatten)).length ∧
+      ∀ j, j < (resample tf (init ++ chunks.flatten)).length →
+        (snap.getD j default).bare = ((resample tf (init ++ chunks.flatten)).getD j default).bare ∧
+        (j = 0 → readingByCandle (snap.getD j default) nm = .none) ∧
+        (1 ≤ j → ∃ t : Num K, readingByCandle (snap.getD j default) nm = .num (t.roundBy n) ∧
+          t.toF = trAt (fieldAt (·.h) (resample tf (init ++ chunks.flatten)))
+            (fieldAt (·.l) (resample tf (init ++ chunks.flatten)))
+            (fieldAt (·.c) (resample tf (init ++ chunks.flatten))) j) :=
+  Numeric.tr_series_tf tf htf nm n hk init chunks hraw
+
+theorem tr_series_on_fillHA (tf : Int) (htf : 0 < tf) (nm : String) (n : Nat) (hk : IsKey nm)
+    (init : List (Candle K)) (chunks : List (List (Candle K)))
+    (hraw : RawTf (init ++ chunks.flatten) ∧ ∀ c ∈ init ++ chunks.flatten, c.tag = false) :
+    ∃ snap, candlesOf (runIndicator (mkTop .tr nm n) { tf := some tf, fill := true, ha := true } init chunks)
+        = .ok snap ∧
+      EveryCandle (TrCandle n nm) (haSpec (fillSpec tf (init ++ chunks.flatten))) snap :=
+  Numeric.tr_series_fillHA tf htf nm n hk init chunks hraw
+
+theorem atr_series_on_manager (M : MgrSpec K) (p : Nat) (hp : 1 ≤ p) (nm : String) (n : Nat) (hk : IsKey nm)
+    (hn : AtrNames nm) : HoldsOn M (mkTop (.atr (p : Int) : Kind K) nm n) (AtrCandle p n nm) :=
+  Numeric.atr_series_on_manager M p hp nm n hk hn
+
+/-- **ATR on a collapsing timeframe**: first reading at COLLAPSED index `p`, Wilder's average of the collapsed
+candles' true ranges -/
+theorem atr_series_on_tf (tf : Int) (htf : 0 < tf) (p : Nat) (hp : 1 ≤ p) (nm : String) (n : Nat) (hk : IsKey nm)
+    (hn : AtrNames nm) (init : List (Candle K)) (chunks : List (List (Candle K)))
+    (hraw : RawTf (init ++ chunks.flatten)) :
+    ∃ snap, candlesOf (runIndicator (mkTop (.atr (p : Int) : Kind K) nm n) { tf := some tf } init chunks) = .ok snap ∧
+      snap.length = (resample tf (init ++ chunks.flatten)).length ∧
+      ∀ j, j < (resample tf (init ++ chunks.flatten)).length →
+        (snap.getD j default).bare = ((resample tf (init ++ chunks.flatten)).getD j default).bare ∧
+        readingByCandle (snap.getD j default) (nm ++ "_TR") = trStored (resample tf (init ++ chunks.flatten)) j ∧
+        AtrOK p n (trS (resample tf (init ++ chunks.flatten))) j (readingByCandle (snap.getD j default) nm) ∧
+        AtrOKTrue p n (resample tf (init ++ chunks.flatten)) j (readingByCandle (snap.getD j default) nm) :=
+  Numeric.atr_series_tf tf htf p hp nm n hk hn init chunks hraw
+
+theorem atr_series_on_fillHA (tf : Int) (htf : 0 < tf) (p : Nat) (hp : 1 ≤ p) (nm : String) (n : Nat) (hk : IsKey nm)
+    (hn : AtrNames nm) (init : List (Candle K)) (chunks : List (List (Candle K)))
+    (hraw : RawTf (init ++ chunks.flatten) ∧ ∀ c ∈ init ++ chunks.flatten, c.tag = false) :
+    ∃ snap, candlesOf (runIndicator (mkTop (.atr (p : Int) : Kind K) nm n)
+        { tf := some tf, fill := true, ha := true } init chunks) = .ok snap ∧
+      EveryCandle (AtrCandle p n nm) (haSpec (fillSpec tf (init ++ chunks.flatten))) snap :=
+  Numeric.atr_series_fillHA tf htf p hp nm n hk hn init chunks hraw
+
+theorem stdev_series_on_manager [NonnegSqrt K] (M : MgrSpec K) (p : Nat) (hp : 1 ≤ p) (nm input : String)
+    (fld : Candle K → Num K) (n : Nat) (hn : SdNames nm) (hin : AttrInput input)
+    (hattr : ∀ c : Candle K, c.attr input = some (.num (fld c))) :
+    HoldsOn M (mkTop (.stdev (p : Int) input : Kind K) nm n) (SdCandle p n nm fld) :=
+  Numeric.stdev_series_on_manager M p hp nm input fld n hn hin hattr
+
+theorem stdev_series_on_tf [NonnegSqrt K] (tf : Int) (htf : 0 < tf) (p : Nat) (hp : 1 ≤ p) (nm input : String)
+    (fld : Candle K → Num K) (n : Nat) (hn : SdNames nm) (hin : AttrInput input)
+    (hattr : ∀ c : Candle K, c.attr input = some (.num (fld c)))
+    (init : List (Candle K)) (chunks : List (List (Candle K))) (hraw : RawTf (init ++ chunks.flatten)) :
+    ∃ snap, candlesOf (runIndicator (mkTop (.stdev (p : Int) input : Kind K) nm n) { tf := some tf } init chunks)
+        = .ok snap ∧
+      snap.length = (resample tf (init ++ chunks.flatten)).length ∧
+      ∀ j, j < (resample tf (init ++ chunks.flatten)).length →
+        (snap.getD j default).bare = ((resample tf (init ++ chunks.flatten)).getD j default).bare ∧
+        SdCandleOK p n nm (fieldAt fld (resample tf (init ++ chunks.flatten))) j (snap.getD j default) :=
+  Numeric.stdev_series_tf tf htf p hp nm input fld n hn hin hattr init chunks hraw
+
+theorem stdev_series_on_fillHA [NonnegSqrt K] (tf : Int) (htf : 0 < tf) (p : Nat) (hp : 1 ≤ p) (nm input : String)
+    (fld : Candle K → Num K) (n : Nat) (hn : SdNames nm) (hin : AttrInput input)
+    (hattr : ∀ c : Candle K, c.attr input = some (.num (fld c)))
+    (init : List (Candle K)) (chunks : List (List (Candle K)))
+    (hraw : RawTf (init ++ chunks.flatten) ∧ ∀ c ∈ init ++ chunks.flatten, c.tag = false) :
+    ∃ snap, candlesOf (runIndicator (mkTop (.stdev (p : Int) input : Kind K) nm n)
+        { tf := some tf, fill := true, ha := true } init chunks) = .ok snap ∧
+      EveryCandle (SdCandle p n nm fld) (haSpec (fillSpec tf (init ++ chunks.flatten))) snap :=
+  Numeric.stdev_series_fillHA tf htf p hp nm input fld n hn hin hattr init chunks hraw
+
+theorem bbands_series_on_manager [NonnegSqrt K] (M : MgrSpec K) (p : Nat) (hp : 2 ≤ p) (nm input : String)
+    (fld : Candle K → Num K) (n : Nat) (hk : IsKey nm) (hn : BbNames nm) (hin : AttrInput input)
+    (hattr : ∀ c : Candle K, c.attr input = some (.num (fld c))) :
+    HoldsOn M (mkTop (.bbands (p : Int) input : Kind K) nm n) (BbCandle p n nm fld) :=
+  Numeric.bbands_series_on_manager M p hp nm input fld n hk hn hin hattr
+
+theorem bbands_series_on_tf [NonnegSqrt K] (tf : Int) (htf : 0 < tf) (p : Nat) (hp : 2 ≤ p) (nm input : String)
+    (fld : Candle K → Num K) (n : Nat) (hk : IsKey nm) (hn : BbNames nm) (hin : AttrInput input)
+    (hattr : ∀ c : Candle K, c.attr input = some (.num (fld c)))
+    (init : List (Candle K)) (chunks : List (List (Candle K))) (hraw : RawTf (init ++ chunks.flatten)) :
+    ∃ snap, candlesOf (runIndicator (mkTop (.bbands (p : Int) input : Kind K) nm n) { tf := some tf } init chunks)
+        = .ok snap ∧
+      snap.length = (resample tf (init ++ chunks.flatten)).length ∧
+      ∀ j, j < (resample tf (init ++ chunks.flatten)).length →
+        (snap.getD j default).bare = ((resample tf (init ++ chunks.flatten)).getD j default).bare ∧
+        BbCandleOK p n nm (fieldAt fld (resample tf (init ++ chunks.flatten))) j (snap.getD j default) :=
+  Numeric.bbands_series_tf tf htf p hp nm input fld n hk hn hin hattr init chunks hraw
+
+theorem bbands_series_on_fillHA [NonnegSqrt K] (tf : Int) (htf : 0 < tf) (p : Nat) (hp : 2 ≤ p) (nm input : String)
+    (fld : Candle K → Num K) (n : Nat) (hk : IsKey nm) (hn : BbNames nm) (hin : AttrInput input)
+    (hattr : ∀ c : Candle K, c.attr input = some (.num (fld c)))
+    (init : List (Candle K)) (chunks : List (List (Candle K)))
+    (hraw : RawTf (init ++ chunks.flatten) ∧ ∀ c ∈ init ++ chunks.flatten, c.tag = false) :
+    ∃ snap, candlesOf (runIndicator (mkTop (.bbands (p : Int) input : Kind K) nm n)
+        { tf := some tf, fill := true, ha := true } init chunks) = .ok snap ∧
+      EveryCandle (BbCandle p n nm fld) (haSpec (fillSpec tf (init ++ chunks.flatten))) snap :=
+  Numeric.bbands_series_fillHA tf htf p hp nm input fld n hk hn hin hattr init chunks hraw
+
+theorem kc_series_on_manager (M : MgrSpec K) (p : Nat) (hp : 2 ≤ p) (nm input : String) (fld : Candle K → Num K)
+    (n : Nat) (mult : Num K) (hk : IsKey nm) (hn : KcNames nm) (hin : AttrInput input)
+    (hattr : ∀ c : Candle K, c.attr input = some (.num (fld c))) :
+    HoldsOn M (mkTop (.kc (p : Int) input mult : Kind K) nm n) (KcCandle p n mult nm fld) :=
+  Numeric.kc_series_on_manager M p hp nm input fld n mult hk hn hin hattr
+
+/-- **KC on a collapsing timeframe**: the history returns, and its candles are `KcSeriesOK` w.r.t. the COLLAPSED
+candles -/
+theorem kc_series_on_tf (tf : Int) (htf : 0 < tf) (p : Nat) (hp : 2 ≤ p) (nm input : String) (fld : Candle K → Num K)
+    (n : Nat) (mult : Num K) (hk : IsKey nm) (hn : KcNames nm) (hin : AttrInput input)
+    (hattr : ∀ c : Candle K, c.attr input = some (.num (fld c)))
+    (init : List (Candle K)) (chunks : List (List (Candle K))) (hraw : RawTf (init ++ chunks.flatten)) :
+    ∃ snap, candlesOf (runIndicator (mkTop (.kc (p : Int) input mult : Kind K) nm n) { tf := some tf } init chunks)
+        = .ok snap ∧
+      KcSeriesOK p n mult nm fld (resample tf (init ++ chunks.flatten)) snap :=
+  Numeric.kc_series_tf tf htf p hp nm input fld n mult hk hn hin hattr init chunks hraw
+
+theorem kc_series_on_fillHA (tf : Int) (htf : 0 < tf) (p : Nat) (hp : 2 ≤ p) (nm input : String)
+    (fld : Candle K → Num K) (n : Nat) (mult : Num K) (hk : IsKey nm) (hn : KcNames nm) (hin : AttrInput input)
+    (hattr : ∀ c : Candle K, c.attr input = some (.num (fld c)))
+    (init : List (Candle K)) (chunks : List (List (Candle K)))
+    (hraw : RawTf (init ++ chunks.flatten) ∧ ∀ c ∈ init ++ chunks.flatten, c.tag = false) :
+    ∃ snap, candlesOf (runIndicator (mkTop (.kc (p : Int) input mult : Kind K) nm n)
+        { tf := some tf, fill := true, ha := true } init chunks) = .ok snap ∧
+      KcSeriesOK p n mult nm fld (haSpec (fillSpec tf (init ++ chunks.flatten))) snap :=
+  Numeric.kc_series_fillHA tf htf p hp nm input fld n mult hk hn hin hattr init chunks hraw
+
+theorem donchian_series_on_manager (M : MgrSpec K) (p : Nat) (hp : 2 ≤ p) (nm : String) (n : Nat)
+    (hn : DcNames nm) : HoldsOn M (mkTop (.donchian p : Kind K) nm n) (DcCandle p n nm) :=
+  Numeric.donchian_series_on_manager M p hp nm n hn
+
+/-- **Donchian on a collapsing timeframe**: the channel over the last `p` COLLAPSED candles -/
+theorem donchian_series_on_tf (tf : Int) (htf : 0 < tf) (p : Nat) (hp : 2 ≤ p) (nm : String) (n : Nat)
+    (hn : DcNames nm) (init : List (Candle K)) (chunks : List (List (Candle K)))
+    (hraw : RawTf (init ++ chunks.flatten)) :
+    ∃ snap, candlesOf (runIndicator (mkTop (.donchian p : Kind K) nm n) { tf := some tf } init chunks) = .ok snap ∧
+      snap.length = (resample tf (init ++ chunks.flatten)).length ∧
+      ∀ j, j < (resample tf (init ++ chunks.flatten)).length →
+        (snap.getD j default).bare = ((resample tf (init ++ chunks.flatten)).getD j default).bare ∧
+        DcOK p n (numAt (·.h) (resample tf (init ++ chunks.flatten)))
+          (numAt (·.l) (resample tf (init ++ chunks.flatten))) j (readingByCandle (snap.getD j default) nm) :=
+  Numeric.donchian_series_tf tf htf p hp nm n hn init chunks hraw
+
+theorem donchian_series_on_fillHA (tf : Int) (htf : 0 < tf) (p : Nat) (hp : 2 ≤ p) (nm : String) (n : Nat)
+    (hn : DcNames nm) (init : List (Candle K)) (chunks : List (List (Candle K)))
+    (hraw : RawTf (init ++ chunks.flatten) ∧ ∀ c ∈ init ++ chunks.flatten, c.tag = false) :
+    ∃ snap, candlesOf (runIndicator (mkTop (.donchian p : Kind K) nm n)
+        { tf := some tf, fill := true, ha := true } init chunks) = .ok snap ∧
+      EveryCandle (DcCandle p n nm) (haSpec (fillSpec tf (init ++ chunks.flatten))) snap :=
+  Numeric.donchian_series_fillHA tf htf p hp nm n hn init chunks hraw
+
+theorem hl_series_on_manager (M : MgrSpec K) (p : Nat) (hp : 1 ≤ p) (nm : String) (n : Nat) (hk : IsKey nm) :
+    HoldsOn M (mkTop (.hl p : Kind K) nm n) (HlCandle p n nm) :=
+  Numeric.hl_series_on_manager M p hp nm n hk
+
+theorem hl_series_on_tf (tf : Int) (htf : 0 < tf) (p : Nat) (hp : 1 ≤ p) (nm : String) (n : Nat) (hk : IsKey nm)
+    (init : List (Candle K)) (chunks : List (List (Candle K))) (hraw : RawTf (init ++ chunks.flatten)) :
+    ∃ snap, candlesOf (runIndicator (mkTop (.hl p : Kind K) nm n) { tf := some tf } init chunks) = .ok snap ∧
+      snap.length = (resample tf (init ++ chunks.flatten)).length ∧
+      ∀ j, j < (resample tf (init ++ chunks.flatten)).length →
+        (snap.getD j default).bare = ((resample tf (init ++ chunks.flatten)).getD j default).bare ∧
+        HlOK p n (numAt (·.h) (resample tf (init ++ chunks.flatten)))
+          (numAt (·.l) (resample tf (init ++ chunks.flatten))) j (readingByCandle (snap.getD j default) nm) :=
+  Numeric.hl_series_tf tf htf p hp nm n hk init chunks hraw
+
+theorem hl_series_on_fillHA (tf : Int) (htf : 0 < tf) (p : Nat) (hp : 1 ≤ p) (nm : String) (n : Nat) (hk : IsKey nm)
+    (init : List (Candle K)) (chunks : List (List (Candle K)))
+    (hraw : RawTf (init ++ chunks.flatten) ∧ ∀ c ∈ init ++ chunks.flatten, c.tag = false) :
+    ∃ snap, candlesOf (runIndicator (mkTop (.hl p : Kind K) nm n)
+        { tf := some tf, fill := true, ha := true } init chunks) = .ok snap ∧
+      EveryCandle (HlCandle p n nm) (haSpec (fillSpec tf (init ++ chunks.flatten))) snap :=
+  Numeric.hl_series_fillHA tf htf p hp nm n hk init chunks hraw
+
+theorem supertrend_series_on_manager (M : MgrSpec K) (p : Nat) (hp : 1 ≤ p) (nm input : String) (mult : Num K)
+    (n : Nat) (hn : StNames nm) (hk : IsKey nm) :
+    HoldsOn M (mkTop (.supertrend (p : Int) input mult : Kind K) nm n) (StCandle p n mult.toF nm) :=
+  Numeric.supertrend_series_on_manager M p hp nm input mult n hn hk
+
+/-- **Supertrend on a collapsing timeframe**: the textbook state machine `stSeries` run over the COLLAPSED candles -/
+theorem supertrend_series_on_tf (tf : Int) (htf : 0 < tf) (p : Nat) (hp : 1 ≤ p) (nm input : String) (mult : Num K)
+    (n : Nat) (hn : StNames nm) (hk : IsKey nm)
+    (init : List (Candle K)) (chunks : List (List (Candle K))) (hraw : RawTf (init ++ chunks.flatten)) :
+    ∃ snap, candlesOf (runIndicator (mkTop (.supertrend (p : Int) input mult : Kind K) nm n) { tf := some tf }
+        init chunks) = .ok snap ∧
+      snap.length = (resample tf (init ++ chunks.flatten)).length ∧
+      ∀ j, j < (resample tf (init ++ chunks.flatten)).length →
+        StCandleOK p n mult.toF nm (resample tf (init ++ chunks.flatten)) j (snap.getD j default) :=
+  Numeric.supertrend_series_tf tf htf p hp nm input mult n hn hk init chunks hraw
+
+theorem supertrend_series_on_fillHA (tf : Int) (htf : 0 < tf) (p : Nat) (hp : 1 ≤ p) (nm input : String)
+    (mult : Num K) (n : Nat) (hn : StNames nm) (hk : IsKey nm)
+    (init : List (Candle K)) (chunks : List (List (Candle K)))
+    (hraw : RawTf (init ++ chunks.flatten) ∧ ∀ c ∈ init ++ chunks.flatten, c.tag = false) :
+    ∃ snap, candlesOf (runIndicator (mkTop (.supertrend (p : Int) input mult : Kind K) nm n)
+        { tf := some tf, fill := true, ha := true } init chunks) = .ok snap ∧
+      snap.length = (haSpec (fillSpec tf (init ++ chunks.flatten))).length ∧
+      ∀ j, j < (haSpec (fillSpec tf (init ++ chunks.flatten))).length →
+        StCandleOK p n mult.toF nm (haSpec (fillSpec tf (init ++ chunks.flatten))) j (snap.getD j default) :=
+  Numeric.supertrend_series_fillHA tf htf p hp nm input mult n hn hk init chunks hraw
+
+theorem thres_series_on_manager [NonnegSqrt K] (M : MgrSpec K) (p : Nat) (hp : 1 ≤ p) (nm input : String)
+    (fld : Candle K → Num K) (mult : Num K) (n : Nat) (hk : IsKey nm) (hn : ThresNames nm) (hin : AttrInput input)
+    (hattr : ∀ c : Candle K, c.attr input = some (.num (fld c))) :
+    HoldsOn M (mkTop (.stdevthres (p : Int) input mult : Kind K) nm n) (ThCandle p nm mult.toF fld) :=
+  Numeric.thres_series_on_manager M p hp nm input fld mult n hk hn hin hattr
+
+theorem thres_series_on_tf [NonnegSqrt K] (tf : Int) (htf : 0 < tf) (p : Nat) (hp : 1 ≤ p) (nm input : String)
+    (fld : Candle K → Num K) (mult : Num K) (n : Nat) (hk : IsKey nm) (hn : ThresNames nm) (hin : AttrInput input)
+    (hattr : ∀ c : Candle K, c.attr input = some (.num (fld c)))
+    (init : List (Candle K)) (chunks : List (List (Candle K))) (hraw : RawTf (init ++ chunks.flatten)) :
+    ∃ snap, candlesOf (runIndicator (mkTop (.stdevthres (p : Int) input mult : Kind K) nm n) { tf := some tf }
+        init chunks) = .ok snap ∧
+      snap.length = (resample tf (init ++ chunks.flatten)).length ∧
+      ∀ j, j < (resample tf (init ++ chunks.flatten)).length →
+        (snap.getD j default).bare = ((resample tf (init ++ chunks.flatten)).getD j default).bare ∧
+        ThCandleOK p nm mult.toF (fieldAt fld (resample tf (init ++ chunks.flatten))) j (snap.getD j default) :=
+  Numeric.thres_series_tf tf htf p hp nm input fld mult n hk hn hin hattr init chunks hraw
+
+theorem thres_series_on_fillHA [NonnegSqrt K] (tf : Int) (htf : 0 < tf) (p : Nat) (hp : 1 ≤ p) (nm input : String)
+    (fld : Candle K → Num K) (mult : Num K) (n : Nat) (hk : IsKey nm) (hn : ThresNames nm) (hin : AttrInput input)
+    (hattr : ∀ c : Candle K, c.attr input = some (.num (fld c)))
+    (init : List (Candle K)) (chunks : List (List (Candle K)))
+    (hraw : RawTf (init ++ chunks.flatten) ∧ ∀ c ∈ init ++ chunks.flatten, c.tag = false) :
+    ∃ snap, candlesOf (runIndicator (mkTop (.stdevthres (p : Int) input mult : Kind K) nm n)
+        { tf := some tf, fill := true, ha := true } init chunks) = .ok snap ∧
+      EveryCandle (ThCandle p nm mult.toF fld) (haSpec (fillSpec tf (init ++ chunks.flatten))) snap :=
+  Numeric.thres_series_fillHA tf htf p hp nm input fld mult n hk hn hin hattr init chunks hraw
+
+theorem counter_series_on_manager {F : Type} [PyF F] (M : MgrSpec F) (nm input : String) (fld : Candle F → Num F)
+    (cv : Scalar F) (n : Nat) (hk : IsKey nm) (hin : AttrInput input)
+    (hattr : ∀ c : Candle F, c.attr input = some (.num (fld c))) :
+    HoldsOn M (mkTop (.counter input cv : Kind F) nm n) (CountCandle cv fld nm) :=
+  Numeric.counter_series_on_manager M nm input fld cv n hk hin hattr
+
+/-- **Counter on a collapsing timeframe, every carrier** (hence also the executed `Float`): the run length of the
+COLLAPSED candles' field values -/
+theorem counter_series_on_tf {F : Type} [PyF F] (tf : Int) (htf : 0 < tf) (nm input : String) (fld : Candle F → Num F)
+    (cv : Scalar F) (n : Nat) (hk : IsKey nm) (hin : AttrInput input)
+    (hattr : ∀ c : Candle F, c.attr input = some (.num (fld c)))
+    (init : List (Candle F)) (chunks : List (List (Candle F))) (hraw : RawTf (init ++ chunks.flatten)) :
+    ∃ snap, candlesOf (runIndicator (mkTop (.counter input cv : Kind F) nm n) { tf := some tf } init chunks)
+        = .ok snap ∧
+      snap.length = (resample tf (init ++ chunks.flatten)).length ∧
+      ∀ j, j < (resample tf (init ++ chunks.flatten)).length →
+        (snap.getD j default).bare = ((resample tf (init ++ chunks.flatten)).getD j default).bare ∧
+        readingByCandle (snap.getD j default) nm = .int ((runLen cv
+          (fun i => (.num (fld ((resample tf (init ++ chunks.flatten)).getD i default)) : Val F)) j : Nat) : Int) :=
+  Numeric.counter_series_tf tf htf nm input fld cv n hk hin hattr init chunks hraw
+
+theorem counter_series_on_fillHA {F : Type} [PyF F] (tf : Int) (htf : 0 < tf) (nm input : String)
+    (fld : Candle F → Num F) (cv : Scalar F) (n : Nat) (hk : IsKey nm) (hin : AttrInput input)
+    (hattr : ∀ c : Candle F, c.attr input = some (.num (fld c)))
+    (init : List (Candle F)) (chunks : List (List (Candle F)))
+    (hraw : RawTf (init ++ chunks.flatten) ∧ ∀ c ∈ init ++ chunks.flatten, c.tag = false) :
+    ∃ snap, candlesOf (runIndicator (mkTop (.counter input cv : Kind F) nm n)
+        { tf := some tf, fill := true, ha := true } init chunks) = .ok snap ∧
+      EveryCandle (CountCandle cv fld nm) (haSpec (fillSpec tf (init ++ chunks.flatten))) snap :=
+  Numeric.counter_series_fillHA tf htf nm input fld cv n hk hin hattr init chunks hraw
+
+/-- non-vacuity (ℚ, two-minute timeframe, fed one candle at a time): ATR(2) returns four candles, TR helper `None` on
+bucket 0, ATR `None` before COLLAPSED index 2, then `≥ 0`.  (`Int` runs by `decide +kernel`: end of
+HexProofs/Numeric/SeriesOnManagersC05.lean.) -/
+example : ∃ snap : List (Candle ℚ),
+    candlesOf (runIndicator (mkTop (.atr ((2 : Nat) : Int) : Kind ℚ) "ATR_2" 4) { tf := some 120 }
+      [] (haStamped.map fun c => [c])) = .ok snap ∧ snap.length = 4 ∧
+    readingByCandle (snap.getD 0 default) ("ATR_2" ++ "_TR") = .none ∧
+    readingByCandle (snap.getD 1 default) "ATR_2" = .none ∧
+    ∃ y, readingByCandle (snap.getD 3 default) "ATR_2" = .flt y ∧ 0 ≤ y := by
+  obtain ⟨snap, h1, h2, h3⟩ := atr_series_on_tf (K := ℚ) 120 (by decide) 2 (by norm_num) "ATR_2" 4 (by decide)
+    ⟨by decide, by decide⟩ [] (haStamped.map fun c => [c]) haStamped_ok.1
+  have e : ([] : List (Candle ℚ)) ++ (haStamped.map fun c => [c]).flatten = haStamped := rfl
+  rw [e] at h2 h3
+  have hlen : (resample 120 haStamped).length = 4 := by decide +kernel
+  rw [hlen] at h2 h3
+  have t0 := (h3 0 (by decide)).2.1
+  have a1 := (h3 1 (by decide)).2.2.2
+  have a3 := (h3 3 (by decide)).2.2.2
+  refine ⟨snap, h1, h2, ?_, a1.1 (by decide), ?_⟩
+  · rw [t0]; unfold trStored; rw [if_pos rfl]
+  · obtain ⟨y, hy, _, h0⟩ := a3.2 (by decide)
+    exact ⟨y, hy, h0⟩
 
 end Hex.C05
